@@ -3,6 +3,8 @@
 From Coq Require Import List.
 From TLXV Require Import C16.Ring C16.RingProofs C16.RingRefine C16.SVec.
 From TLXV Require C16.SVecProofs.
+From TLXV Require C16.Mask.
+From Coq Require Import NArith.
 Import ListNotations.
 
 (** For every history over three buffer variables (allocate, deallocate, pushes and pops at both ends,
@@ -62,3 +64,20 @@ Theorem C16_svec_refines_lists : forall ops,
   vfinal_ok (fst (vrun vinit ops)) = true.
 Proof. exact SVecProofs.svec_refines_lists. Qed.
 Print Assumptions C16_svec_refines_lists.
+
+(** Index arithmetic: the C++ computes every index as [x & mask_] on size_t (64-bit, wrapping), with
+    capacity_ = 2^k and mask_ = capacity_ - 1; the model writes [x mod cap].  With the wrap-around made
+    explicit (and64 = &, add64 a b = (a + b) mod 2^64, sub64 a b = (a + 2^64 - b) mod 2^64), each C++
+    expression -- masking, [++end_ &= mask_], [--begin_ &= mask_] (through 2^64-1 at 0),
+    [(end_ - begin_) & mask_], [(begin_ + i) & mask_], [(end_ - 1) & mask_] -- equals the model's, for every
+    capacity the model's constructor creates (rup2 (m+1), a power of two) that fits size_t (<= 2^63). *)
+Theorem C16_mask_arithmetic : forall m cap mask,
+  cap = N.of_nat (rup2 (m + 1)) -> (cap <= 2 ^ 63)%N -> mask = (cap - 1)%N ->
+  (forall x, Mask.and64 x mask = x mod cap)%N /\
+  (forall x, x < cap -> Mask.and64 (Mask.add64 x 1) mask = (x + 1) mod cap)%N /\
+  (forall x, x < cap -> Mask.and64 (Mask.sub64 x 1) mask = (x + cap - 1) mod cap)%N /\
+  (forall e b, e < cap -> b < cap -> Mask.and64 (Mask.sub64 e b) mask = (e + cap - b) mod cap)%N /\
+  (forall b i, b < cap -> i < cap -> Mask.and64 (Mask.add64 b i) mask = (b + i) mod cap)%N /\
+  (forall e, e < cap -> Mask.and64 (Mask.sub64 e 1) mask = (e + cap - 1) mod cap)%N.
+Proof. exact Mask.mask_arithmetic_rup2. Qed.
+Print Assumptions C16_mask_arithmetic.
